@@ -29,7 +29,8 @@ META = {
     "explanation": "Effect and path analysis of the `plan report` command: call-graph reachability with constant "
                    "propagation of argparse defaults enumerates every stdout-writing call; the except-clauses are "
                    "read as an exit-code table and checked against the raises that feed them; dataflow ties the "
-                   "echoed file and the report_id to their required origins. Necessary conditions only.",
+                   "echoed file and the report_id to their required origins. Necessary conditions only."
+                   " Also: Path.read_text/read_bytes as input reads, decoding failures of stdin mapped to the unreadable-input class, the stdin spool as a verbatim single write, and sibling agreement of the early returns of the JSON and CSV writers.",
     "assumptions": ["click.echo(..., err=True), logging and print(file=sys.stderr) write to stderr",
                     "json.dumps/json.loads produce/accept well-formed JSON"],
 }
